@@ -108,7 +108,7 @@ func verifHarnessC03Get()           { verifC03Step(opGet) }
 
 type verifV1Bytes string
 
-func (b verifV1Bytes) MarshalText() ([]byte, error) { return []byte(b), nil } // encoding checked in C18
+func (b verifV1Bytes) MarshalText() ([]byte, error)  { return []byte(b), nil } // encoding checked in C18
 func (b *verifV1Bytes) UnmarshalText(t []byte) error { *b = verifV1Bytes(t); return nil }
 
 type verifV1Secret struct {
